@@ -2,6 +2,7 @@ import Verif.Proofs.NumRoundLen
 import Verif.Proofs.NumHolds
 import Verif.Proofs.NumDecRound
 import Verif.Proofs.NumNumRound
+import Verif.Proofs.NumJson
 /-!
 # C08 — Number/Decimal shortening keeps the numeric value
 
@@ -10,7 +11,7 @@ Property theorems only.  Models: `Verif.Model.Num.number`, `Verif.Model.Num.deci
 -/
 namespace Verif.Props.C08
 open Verif.Model.Num Verif.Proofs.Num
-open Verif.Spec.Num (isNumber isDecimal numVal holds WithinHalfUnit)
+open Verif.Spec.Num (isNumber isDecimal numVal holds WithinHalfUnit WithinHalfUnitDec)
 
 /-- (a) the result of `Number` is never longer than its input — every byte string, every precision -/
 theorem number_length (s : List Char) (p : Int) : (number s p).length ≤ s.length :=
@@ -87,10 +88,11 @@ theorem decimal_grammar (s : List Char) (p : Int) (hs : isDecimal s = true) :
   · rw [← h3]; exact isDecimal_str l' h1 h2
 
 /-- (d) with a precision `p > 0` the result of `Decimal` is within half a unit of the `p`-th significant
-    digit of the input value (`WithinHalfUnit`: `|w − v| ≤ ½·10^(L−p+1)` where `10^L ≤ |v| < 10^(L+1)`;
+    digit of the input value and never further than half a unit of the units place
+    (`WithinHalfUnitDec`: `|w − v| ≤ ½·10^(min (L−p+1) 0)` where `10^L ≤ |v| < 10^(L+1)`;
     only fraction digits are dropped, so a long integer part is returned exactly) -/
 theorem decimal_round (s : List Char) (p : Int) (hs : isDecimal s = true) (hp : 0 < p) :
-    ∃ v w, numVal s = some v ∧ numVal (decimal s p) = some w ∧ WithinHalfUnit s p v w := by
+    ∃ v w, numVal s = some v ∧ numVal (decimal s p) = some w ∧ WithinHalfUnitDec s p v w := by
   obtain ⟨l, hwf, rfl, hex⟩ := exists_lex_of_isDecimal hs
   obtain ⟨w, h1, h2⟩ := decimal_round_lex l hwf hex p hp
   exact ⟨l.val, w, numVal_str l hwf, h1, h2⟩
@@ -109,5 +111,20 @@ theorem holds_sound (decimalMode : Bool) (s : List Char) (p : Int) (out : List C
   holds_exact_sound decimalMode s p out h hp
 
 example : holds false "+012.500e-3".toList 0 ".0125".toList = true := by decide
+-- the checker rejects a `Decimal` result that lost its fraction although the integer part is longer than the precision
+example : holds true "12.9".toList 1 "12".toList = false ∧ holds true "12.9".toList 1 "12.9".toList = true ∧
+    holds true "2.9".toList 1 "3".toList = true ∧ holds false "12.9".toList 1 "10".toList = true := by decide
+
+/-- bridge to C07: the model of `minify.Number` satisfies the three hypotheses that the model of the JSON
+    minifier (`Verif.Model.Json`) makes about it, stated with the JSON side's own recognisers and value function:
+    on RFC 8259 number lexemes the result is in the minifier's number grammar and not longer (`NumGrammar`), a
+    result that starts with `.`/`-.` for a lexeme without exponent is strictly shorter (`NumDotShrinks`) — both
+    for every precision — and at precision ≤ 0 the value is unchanged (`NumValue`) -/
+theorem number_json_hypotheses (p : Int) :
+    Verif.Model.Json.NumGrammar number p ∧ Verif.Model.Json.NumDotShrinks number p ∧
+      (p ≤ 0 → Verif.Model.Json.NumValue number p) :=
+  ⟨number_numGrammar p, number_numDotShrinks p, number_numValue p⟩
+
+example : Verif.Spec.Json.isJsonNumber "-0.50e+3".toList = true := by decide
 
 end Verif.Props.C08
